@@ -218,13 +218,7 @@ def r3_argument_binding(ctx: Ctx) -> None:
     ctx.check(bool(wdef) and len(wdef[0].args) == 2 and unparse(wdef[0].args[1]) == "False", "generate_map:writable-default", "a map is read-only (ROM) unless declared writable")
 
 
-def r4_rejection(ctx: Ctx) -> None:
-    gm = ctx.repo.func(MAPPING, "Bus.get_mapping_for_bank")
-    rets = returns_of(gm.node)
-    ctx.check(len(rets) == 1 and unparse(rets[0].value) == f"self.mappings[self.lookup[{gm.params()[1]}]]", "Bus.get_mapping_for_bank",
-              f"plain subscripts: an unmapped bank raises KeyError; found `{unparse(rets[0].value) if rets else None}`")
-    for t in [n for n in walk_no_nested(gm.node) if isinstance(n, ast.Try)]:
-        ctx.fail("Bus.get_mapping_for_bank:try", "a handler can turn an unmapped bank into some mapping")
+def ram_has_no_offset(ctx: Ctx) -> None:
     pa = ctx.repo.func(MAPPING, "Mapping.physical_address")
     pf = return_facts(pa)
 
@@ -241,6 +235,16 @@ def r4_rejection(ctx: Ctx) -> None:
     value_facts = [f for f in pf if f[0] != "None"]
     ok = bool(none_facts) and bool(value_facts) and all(ram_cond(c) is True for _v, c in none_facts) and all(ram_cond(c) is False for _v, c in value_facts)
     ctx.check(ok, "Mapping.physical_address:ram-has-no-offset", f"returns None exactly for writable (RAM) mappings and an offset for ROM; found: {show_facts(pf)}")
+
+
+def r4_rejection(ctx: Ctx) -> None:
+    gm = ctx.repo.func(MAPPING, "Bus.get_mapping_for_bank")
+    rets = returns_of(gm.node)
+    ctx.check(len(rets) == 1 and unparse(rets[0].value) == f"self.mappings[self.lookup[{gm.params()[1]}]]", "Bus.get_mapping_for_bank",
+              f"plain subscripts: an unmapped bank raises KeyError; found `{unparse(rets[0].value) if rets else None}`")
+    for t in [n for n in walk_no_nested(gm.node) if isinstance(n, ast.Try)]:
+        ctx.fail("Bus.get_mapping_for_bank:try", "a handler can turn an unmapped bank into some mapping")
+    ram_has_no_offset(ctx)
     init = ctx.repo.func(MAPPING, "Mapping.__init__")
     st = {unparse(n.targets[0]): unparse(n.value) for n in walk_no_nested(init.node) if isinstance(n, ast.Assign)}
     P = init.params()
